@@ -16,12 +16,14 @@
 EXTENDS VFS, SequencesExt
 
 CONSTANTS Procs, Scenario, MaxIno, KMaxLinks,
-          TolerateEEXIST     \* TRUE = the code; FALSE = mechanism removed (a racing creator makes the loser fail)
+          TolerateEEXIST,    \* TRUE = the code; FALSE = mechanism removed (a racing creator makes the loser fail)
+          MaxAttack          \* attacker budget: renames of directories (never the root's own dentry) between any two steps
 
 VARIABLES fs, fs0, pc, k, lasterr, cur, parts, res, nextIno,
-          who      \* the process that made the last step (read by the schedule generator only)
+          who,     \* the process that made the last step (read by the schedule generator only)
+          natk, everIn, outsideMk   \* attacker budget used; ghost: inodes ever inside the root; did a library mkdirat use a parent that never was inside?
 
-vars == <<fs, fs0, pc, k, lasterr, cur, parts, res, nextIno, who>>
+vars == <<fs, fs0, pc, k, lasterr, cur, parts, res, nextIno, who, natk, everIn, outsideMk>>
 
 Ino == 1..MaxIno
 BaseDents == {<<P, "root", R>>, <<P, "out", O>>, <<O, "secret", SECRET>>}
@@ -53,6 +55,7 @@ Init ==
     /\ pc = [p \in Procs |-> "try"] /\ k = [p \in Procs |-> 1] /\ lasterr = [p \in Procs |-> ""]
     /\ cur = [p \in Procs |-> R] /\ parts = [p \in Procs |-> <<>>] /\ res = [p \in Procs |-> Err("none")]
     /\ nextIno = Scenario.firstFree /\ who = ""
+    /\ natk = 0 /\ everIn = ReachFrom(MkFs(Scenario.nodes), {R}) /\ outsideMk = FALSE
 
 Fail(p, e) == /\ res' = [res EXCEPT ![p] = Err(e)] /\ pc' = [pc EXCEPT ![p] = "done"]
 
@@ -99,17 +102,36 @@ Open(p) ==
                ELSE pc' = [pc EXCEPT ![p] = "mk"] /\ UNCHANGED res
     /\ UNCHANGED <<fs, fs0, k, lasterr, nextIno>>
 
-Next == \E p \in Procs : (Try(p) \/ Reopen(p) \/ Mk(p) \/ Open(p)) /\ who' = p
+\* the attacker moves a directory (not the root) somewhere else -- e.g. out of the root
+Attack ==
+    /\ natk < MaxAttack /\ \E p \in Procs : pc[p] # "done"
+    /\ \E e \in fs.dents : \E dd \in {O, P} :
+          /\ e[3] \notin {P, R, O} /\ IsDir(fs, e[3]) /\ ~HasChild(fs, dd, "moved")
+          /\ LET r == Renameat(fs, e[1], e[2], dd, "moved", "") IN r.res.ok /\ fs' = r.fs
+    /\ natk' = natk + 1 /\ who' = "attacker"
+    /\ UNCHANGED <<fs0, pc, k, lasterr, cur, parts, res, nextIno, outsideMk>>
+
+LibStep(p) ==
+    /\ (Try(p) \/ Reopen(p) \/ Mk(p) \/ Open(p))
+    /\ who' = p /\ natk' = natk
+    \* C03 ghost: a creating step whose parent directory was never inside the root
+    /\ outsideMk' = (outsideMk \/ (pc[p] = "mk" /\ cur[p] \notin everIn))
+
+Next == /\ ((\E p \in Procs : LibStep(p)) \/ Attack)
+        /\ everIn' = everIn \cup ReachFrom(fs', {R})
 Spec == Init /\ [][Next]_vars
 
 AllDone == \A p \in Procs : pc[p] = "done"
 \* C12: concurrent callers all succeed ...
-AllSucceed == AllDone => \A p \in Procs : res[p].ok
+AllSucceed == (AllDone /\ natk = 0) => \A p \in Procs : res[p].ok
 \* ... and return handles of the in-root resolution of their paths in the final tree
 HandleIsResolution ==
-    AllDone => \A p \in Procs : res[p].ok => LET r == KResolve(fs, R, Path(p), FollowFlags, KMaxLinks) IN r.ok /\ r.ino = res[p].ino
+    (AllDone /\ natk = 0) => \A p \in Procs : res[p].ok => LET r == KResolve(fs, R, Path(p), FollowFlags, KMaxLinks) IN r.ok /\ r.ino = res[p].ino
 \* nothing but new directories is added, nothing is removed or replaced
-OnlyNewDirs == /\ fs0.dents \subseteq fs.dents
+OnlyNewDirs == natk = 0 =>
+               /\ fs0.dents \subseteq fs.dents
                /\ \A d \in fs.dents \ fs0.dents : fs.kind[d[3]] = "dir" /\ fs0.kind[d[3]] = "free"
+\* C03: no directory entry is created in a directory that was never inside the root
+MutationsInside == ~outsideMk
 TypeOK == \A p \in Procs : pc[p] \in {"try", "reopen", "mk", "open", "done"}
 =============================================================================
